@@ -426,6 +426,17 @@ func init() {
 				}
 			}
 		}
+		// element assignment into ARRAYS held by value (not addressable) and behind pointers, of every element
+		// type incl. interfaces, with nil and values of every kind: an error or the assignment, never a panic
+		{
+			ai, ae, as, an := [2]interface{}{1, "b"}, [1]error{nil}, [2]fmt.Stringer{strer{}, nil}, [2]int{1, 2}
+			extra := map[string]interface{}{"ai": ai, "ae": ae, "as": as, "an": an, "pai": &ai, "pan": &an, "mai": map[string][2]interface{}{"a": ai}, "sai": struct{ A [2]interface{} }{ai}, "lai": [][2]interface{}{ai}}
+			for _, target := range []string{"ai[0]", "ae[0]", "as[1]", "an[0]", "pai[1]", "pan[1]", "ai[5]", "mai[\"a\"]", "lai[0]"} {
+				for _, v := range []string{"nil", "1", "\"s\"", "vt0", "[1]", "ai", "vnil"} {
+					e.c04case("array-element-assign", "<% "+target+" = "+v+" %>ok", false, extra)
+				}
+			}
+		}
 		// block helpers called WITHOUT a block, alone and followed by what would replay the block
 		for _, tm := range []string{`<% contentFor("a") %><%= contentOf("a") %>`, `<% contentFor("a") %><%= contentOf("a", {"label": "x"}) %>`, `<% contentFor("a") %><%= contentOf("a") { %>d<% } %>`,
 			`<%= contentOf("a") %>`, `<%= blk() %>`, `<%= blkctx({w: 1}) %>`, `<%= blk2() %>`, `<% contentFor("a") %><% contentFor("a") { %>x<% } %><%= contentOf("a") %>`, `<%= for (i) in [1, 2] { %><% contentFor("l") %><%= contentOf("l") %><% } %>`} {
